@@ -7,16 +7,18 @@
    an overlap error at a node that is in no conflicting pair). *)
 From Coq Require Import List NArith ZArith Bool String.
 From GQL Require Export Exec.Syntax Validate.VSyntax.
-From GQL Require Import Base.Bytes Validate.Overlap Validate.Rules Validate.All.
+From GQL Require Import Base.Bytes Validate.Overlap Validate.OverlapWf Validate.Rules Validate.All.
 Import ListNotations.
 Open Scope N_scope.
 
 Inductive c02case :=
 | DocCase (S : schema) (W : wdoc) (impl : list (N * list N)).
 
-Definition fuel : nat := 200.
+(* the fuel of the overlap model and of the oracle: at least 200 and at least the proved bound
+   fuel_of (C02_overlap_fuel_sufficient) *)
+Definition fuel_for (W : wdoc) : nat := Nat.max 200 (fuel_of (erase W)).
 
-Definition run_rule (r : N) (S : schema) (W : wdoc) : list N := run_rule_f fuel r S W.
+Definition run_rule (r : N) (S : schema) (W : wdoc) : list N := run_rule_f (fuel_for W) r S W.
 
 Fixpoint nin (x : N) (l : list N) : bool :=
   match l with [] => false | y :: r => (x =? y) || nin x r end.
@@ -25,53 +27,65 @@ Definition same_set (a b : list N) : bool := subset a b && subset b a.
 Definition nonempty {A} (l : list A) : bool := match l with [] => false | _ => true end.
 
 (* Spec verdict of a rule: does the document violate it?  For the overlap rule this is the
-   brute-force layer L1; for NoFragmentCycles "some fragment reaches itself"; for the other
+   brute-force layer L1; for NoFragmentCycles "some fragment reaches itself" (the certified test ranked_b); for the other
    rules the model's verdict (tied to the declarative predicates by the C02_rule_iff theorems). *)
 Definition spec_violates (r : N) (S : schema) (W : wdoc) : bool :=
   match r with
-  | 13 => match L1o S (erase W) fuel with Some true => false | _ => true end
-  | 9 => negb (acyclic_b (erase W))
+  | 13 => match L1o S (erase W) (fuel_for W) with Some true => false | _ => true end
+  | 9 => negb (ranked_b (erase W))   (* C02_cycles_oracle *)
   | _ => nonempty (run_rule r S W)
   end.
 
-(* every field of the document has unique argument names.  Only then is the overlap rule
-   judged against L1: with duplicate argument names sameArguments is neither reflexive nor
-   symmetric, the code compares each unordered pair once and never a field with itself,
-   and L1 (all ordered pairs) is not the rule's specification (UniqueArgumentNames rejects
-   such documents; C02_same_arguments_symmetric) *)
-Fixpoint names_nodup (l : list name) : bool :=
-  match l with [] => true | x :: r => negb (nmem x r) && names_nodup r end.
-Fixpoint sel_args_unique (s : selection) : bool :=
-  match s with
-  | SField _ _ _ args _ sub =>
-    names_nodup (map fst args) &&
-    (fix go (l : list selection) : bool := match l with [] => true | x :: r => sel_args_unique x && go r end) sub
-  | SSpread _ _ _ => true
-  | SInline _ _ _ sub =>
-    (fix go (l : list selection) : bool := match l with [] => true | x :: r => sel_args_unique x && go r end) sub
-  end.
-Definition args_unique_b (D : document) : bool :=
-  forallb (fun o => forallb sel_args_unique (o_sel o)) (d_ops D) &&
-  forallb (fun f => forallb sel_args_unique (fr_sel f)) (d_frags D).
+(* every field of the document has unique argument names (OverlapWf.args_ok).  Only then is the
+   overlap rule judged against L1: with duplicate argument names sameArguments is neither
+   reflexive nor symmetric, the code compares each unordered pair once and never a field with
+   itself, and L1 (all ordered pairs) is not the rule's specification (UniqueArgumentNames
+   rejects such documents; C02_same_arguments_symmetric) *)
+Definition args_unique_b (D : document) : bool := args_ok D.
+
+(* the decidable hypotheses of C02_overlap_exec_decides / C02_accept_iff, checked on every
+   case: distinct non-zero selection ids, no redefinition of __typename / String, and the
+   runner's fuel covers fuel_of *)
+Definition wf_case (S : schema) (W : wdoc) : bool :=
+  if ids_ok (erase W) then meta_ok S else false.
 
 Definition check_rule (S : schema) (W : wdoc) (acyc : bool) (r : N) (impl : list N) : N :=
+  let fuel := fuel_for W in
   (* nested ifs, not &&: vm_compute evaluates both arguments of andb *)
   if r =? 13 then
     (* the model must never run out of fuel (OutOfFuel is not a verdict) *)
     if negb (run_complete S (erase W) true fuel) then 1 else
+    if negb (wf_case S W) then 1 else
     if acyc then
+      (* the proved fuel bound covers the runner's fuel (C02_overlap_fuel_sufficient) *)
+      if negb (Nat.leb (fuel_of (erase W)) fuel) then 1 else
       (* the Spec oracle is L1o (C02_L1_oracle_reflects: a verdict of L1o is the truth value of
          L1_accepts); None = out of fuel is a defect of the check, not a verdict *)
       if match L1o S (erase W) fuel with None => true | _ => false end then 1 else
-      if negb (Bool.eqb (nonempty impl) (spec_violates r S W)) then 2
-      else if negb (subset impl (L1_offending S (erase W) fuel)) then 2
-      else if same_set impl (run_rule r S W) then 0 else 1
+      (* the declarative decomposition L2 is decided by the unmemoised executable
+         (C02_overlap_unmemo_decides_L2): it must complete and agree with the oracle L1o
+         (C02_overlap_decomposition) and with the memoised model (C02_overlap_memo_transparent) *)
+      if negb (run_complete S (erase W) false fuel) then 1 else
+      if negb (Bool.eqb (nonempty (run_overlap S (erase W) false fuel)) (spec_violates r S W)) then 1 else
+      if negb (Bool.eqb (nonempty (run_rule r S W)) (spec_violates r S W)) then 1 else
+      if negb (Bool.eqb (nonempty impl) (spec_violates r S W)) then 2 else
+      (* located: every node the implementation reports is an offending node of the Spec -- a
+         member of an incompatible pair (oracle offending_o, C02_offending_oracle; the model's
+         own reports lie in it, C02_overlap_reports_offending) *)
+      match offending_o S (erase W) fuel with
+      | None => 1
+      | Some ids =>
+        if negb (subset impl ids) then 2
+        else if negb (subset (run_rule r S W) ids) then 1
+        else if same_set impl (run_rule r S W) then 0 else 1
+      end
     else
       (* cyclic documents and documents with duplicate argument names are outside the overlap
          rule's specification (NoFragmentCycles / UniqueArgumentNames reject them); the
          memoised model still has to agree with the implementation *)
       (if same_set impl (run_rule r S W) then 0 else 1)
   else if (r =? 11) && negb (closures_stable W) then 1   (* the model's closure fell short: not a verdict *)
+  else if (r =? 9) && negb (Bool.eqb (acyclic_b (erase W)) (ranked_b (erase W))) then 1   (* the two acyclicity tests differ *)
   else if negb (Bool.eqb (nonempty impl) (spec_violates r S W)) then 2
   else if same_set impl (run_rule r S W) then 0 else 1.
 
@@ -81,7 +95,7 @@ Fixpoint worst (l : list N) : N :=
 Definition check (c : c02case) : N :=
   match c with
   | DocCase S0 W impl => let S := S0 in
-    let acyc := if acyclic_b (erase W) then args_unique_b (erase W) else false in
+    let acyc := if ranked_b (erase W) then args_unique_b (erase W) else false in
     worst (map (fun p =>
       let r := fst p in
       if r =? 24 then
@@ -102,7 +116,7 @@ Fixpoint bad (cs : list (N * c02case)) : list (N * N) :=
 Definition diag (c : c02case) : list (N * N * list N * bool) :=
   match c with
   | DocCase S0 W impl =>
-    let acyc := if acyclic_b (erase W) then args_unique_b (erase W) else false in
+    let acyc := if ranked_b (erase W) then args_unique_b (erase W) else false in
     flat_map (fun p =>
       let r := fst p in
       if r =? 24 then [] else
